@@ -93,7 +93,26 @@ def World.clearWith (w : World) (visit : List Arch) : Out (World × List Val) :=
     .ok ({ w with archs := w.archs.map Arch.cleared, alloc := al, len := 0 }, visit.flatMap Arch.values)
 
 theorem clear_eq_clearWith (w : World) (order : List Mask) :
-    w.clear order = w.clearWith (w.visitOrder order) := rfl
+    w.clearRaw order = w.clearWith (w.visitOrder order) := rfl
+
+/-- `clear` = the column loop followed by sorting the slots it freed. -/
+theorem clear_eq {w w' : World} {order : List Mask} {drops : List Val}
+    (e : w.clear order = .ok (w', drops)) :
+    ∃ w1, w.clearRaw order = .ok (w1, drops) ∧
+      w' = { w1 with alloc := World.sortFreeFrom w1.alloc w.alloc.free.length } := by
+  unfold World.clear at e
+  cases h : w.clearRaw order with
+  | ub x => simp [h] at e
+  | ok p =>
+    obtain ⟨w1, d1⟩ := p
+    simp only [h, Out.ok.injEq, Prod.mk.injEq] at e
+    obtain ⟨rfl, rfl⟩ := e
+    exact ⟨w1, rfl, rfl⟩
+
+theorem clear_of_raw {w w1 : World} {order : List Mask} {drops : List Val}
+    (e : w.clearRaw order = .ok (w1, drops)) :
+    w.clear order = .ok ({ w1 with alloc := World.sortFreeFrom w1.alloc w.alloc.free.length }, drops) := by
+  unfold World.clear; rw [e]
 
 theorem find_map_cleared (l : List Arch) (hd : Nat) :
     (l.map Arch.cleared).find? (fun a => a.handle == hd) = (l.find? (fun a => a.handle == hd)).map Arch.cleared := by
@@ -245,10 +264,103 @@ end Brood
 
 namespace Brood
 
+/-- The column loop preserves the invariant and never fails, for every observed table order. -/
+theorem clearRaw_inv {w : World} (hi : Inv w) (order : List Mask) :
+    ∃ w' drops, w.clearRaw order = .ok (w', drops) ∧ Inv w' := by
+  rw [clear_eq_clearWith]
+  exact clearWith_inv hi (List.mergeSort_perm _ _)
+
+/-- Sorting a suffix of the free queue permutes it. -/
+theorem sortFreeFrom_perm (a : Alloc) (n : Nat) : (World.sortFreeFrom a n).free.Perm a.free := by
+  unfold World.sortFreeFrom
+  simp only
+  have h1 : ((a.free.drop n).mergeSort (fun x y => decide (x ≤ y))).Perm (a.free.drop n) := List.mergeSort_perm _ _
+  have h2 : (a.free.take n ++ (a.free.drop n).mergeSort (fun x y => decide (x ≤ y))).Perm (a.free.take n ++ a.free.drop n) :=
+    List.Perm.append_left _ h1
+  rwa [List.take_append_drop] at h2
+
+/-- **The invariant does not depend on the order of the free queue.** -/
+theorem inv_perm_free {w : World} (hi : Inv w) {free' : List Nat} (hp : free'.Perm w.alloc.free) :
+    Inv { w with alloc := { w.alloc with free := free' } } := by
+  have hfind : ∀ hd, ({ w with alloc := { w.alloc with free := free' } } : World).findArch hd = w.findArch hd :=
+    fun _ => rfl
+  refine
+    { free_nodup := hp.nodup_iff.mpr hi.free_nodup
+      free_inactive := fun i hif => hi.free_inactive i (hp.mem_iff.mp hif)
+      slots := ?_, archs := ?_, masks_nodup := hi.masks_nodup, handles_nodup := hi.handles_nodup
+      typeIds := hi.typeIds, typeIds_nodup := hi.typeIds_nodup, foreign := hi.foreign, len := hi.len }
+  · intro i hlt
+    apply slotOk_iff.mpr
+    intro s hs
+    obtain ⟨h1, h2⟩ := (slotOk_iff.mp (hi.slots i hlt)) s hs
+    refine ⟨fun hn => hp.mem_iff.mpr (h1 hn), ?_⟩
+    intro l hl
+    obtain ⟨a, ha, hrow, hnf⟩ := h2 l hl
+    exact ⟨a, ha, hrow, fun hc => hnf (hp.mem_iff.mp hc)⟩
+  · intro a ha
+    exact hi.archs a ha
+
+/-- Sorting two permutations of one list of slot indices gives the same list. -/
+theorem mergeSort_eq_of_perm {l1 l2 : List Nat} (hp : l1.Perm l2) :
+    l1.mergeSort (fun x y => decide (x ≤ y)) = l2.mergeSort (fun x y => decide (x ≤ y)) := by
+  have htr : ∀ a b c : Nat, decide (a ≤ b) = true → decide (b ≤ c) = true → decide (a ≤ c) = true := by
+    intro a b c h1 h2; simp at *; omega
+  have htot : ∀ a b : Nat, (decide (a ≤ b) || decide (b ≤ a)) = true := by
+    intro a b; simp; omega
+  apply List.Perm.eq_of_pairwise (le := fun a b => decide (a ≤ b) = true)
+  · intro a b _ _ h1 h2; simp at h1 h2; omega
+  · exact List.pairwise_mergeSort htr htot l1
+  · exact List.pairwise_mergeSort htr htot l2
+  · exact ((List.mergeSort_perm l1 _).trans hp).trans (List.mergeSort_perm l2 _).symm
+
+/-- **The allocator left by `clear` does not depend on the order the tables are visited in**: two
+observed table orders give the same slots and the same free queue — so the identifiers issued
+afterwards are the same. -/
+theorem clear_alloc_order_independent {w : World} (hi : Inv w) (o1 o2 : List Mask)
+    {w1 w2 : World} {d1 d2 : List Val} (e1 : w.clear o1 = .ok (w1, d1)) (e2 : w.clear o2 = .ok (w2, d2)) :
+    w1.alloc = w2.alloc ∧ w1.archs = w2.archs ∧ w1.len = w2.len ∧ w1.res = w2.res := by
+  obtain ⟨x1, r1, rfl⟩ := clear_eq e1
+  obtain ⟨x2, r2, rfl⟩ := clear_eq e2
+  rw [clear_eq_clearWith] at r1 r2
+  have hp1 : (w.visitOrder o1).Perm w.archs := List.mergeSort_perm _ _
+  have hp2 : (w.visitOrder o2).Perm w.archs := List.mergeSort_perm _ _
+  have hperm1 : ((w.visitOrder o1).flatMap (·.ids)).Perm w.stored := List.Perm.flatMap_right _ hp1
+  have hperm2 : ((w.visitOrder o2).flatMap (·.ids)).Perm w.stored := List.Perm.flatMap_right _ hp2
+  have hex : ∀ (v : List Arch), (v.flatMap (·.ids)).Perm w.stored →
+      ∀ y ∈ v.flatMap (·.ids), ∃ s, w.alloc.slots[y.index]? = some s := by
+    intro v hpv y hy
+    obtain ⟨a, ha, r, hr⟩ := mem_stored (hpv.mem_iff.mp hy)
+    exact ⟨_, (hi.archOk ha).rows r y hr⟩
+  obtain ⟨al1, f1, g1, l1, s1⟩ := freeAll_spec _ w.alloc (hex _ hperm1)
+  obtain ⟨al2, f2, g2, l2, s2⟩ := freeAll_spec _ w.alloc (hex _ hperm2)
+  simp only [World.clearWith, f1, f2, Out.ok.injEq, Prod.mk.injEq] at r1 r2
+  obtain ⟨rfl, _⟩ := r1
+  obtain ⟨rfl, _⟩ := r2
+  refine ⟨?_, rfl, rfl, rfl⟩
+  show World.sortFreeFrom al1 w.alloc.free.length = World.sortFreeFrom al2 w.alloc.free.length
+  have hidx : (((w.visitOrder o1).flatMap (·.ids)).map (·.index)).Perm (((w.visitOrder o2).flatMap (·.ids)).map (·.index)) :=
+    (hperm1.trans hperm2.symm).map _
+  have hslots : al1.slots = al2.slots := by
+    apply List.ext_getElem?
+    intro j
+    rw [s1 j, s2 j]
+    have : (j ∈ ((w.visitOrder o1).flatMap (·.ids)).map (·.index)) ↔ (j ∈ ((w.visitOrder o2).flatMap (·.ids)).map (·.index)) :=
+      hidx.mem_iff
+    by_cases hj : j ∈ ((w.visitOrder o1).flatMap (·.ids)).map (·.index)
+    · simp only [hj, this.mp hj, if_true]
+    · have hj2 : ¬ j ∈ ((w.visitOrder o2).flatMap (·.ids)).map (·.index) := fun h => hj (this.mpr h)
+      simp only [hj, hj2, if_false]
+  unfold World.sortFreeFrom
+  rw [g1, g2, List.take_left, List.take_left, List.drop_left, List.drop_left, mergeSort_eq_of_perm hidx]
+  cases al1; cases al2
+  simp only at hslots ⊢
+  subst hslots
+  rfl
+
 /-- **`World::clear` preserves the invariant and never fails**, for every observed table order. -/
 theorem clear_inv {w : World} (hi : Inv w) (order : List Mask) :
     ∃ w' drops, w.clear order = .ok (w', drops) ∧ Inv w' := by
-  rw [clear_eq_clearWith]
-  exact clearWith_inv hi (List.mergeSort_perm _ _)
+  obtain ⟨w1, d, h1, hi1⟩ := clearRaw_inv hi order
+  exact ⟨_, d, clear_of_raw h1, inv_perm_free hi1 (sortFreeFrom_perm _ _)⟩
 
 end Brood
